@@ -10,6 +10,7 @@ import PhpVerif.Model.Render
 import PhpVerif.Props.C15
 import PhpVerif.Props.C16
 import PhpVerif.Gen.FmtCode
+import PhpVerif.Model.Roundtrip
 import PhpVerif.Gen.ResolverCode
 import PhpVerif.Gen.TraverserTab
 import PhpVerif.Gen.Tables7
@@ -433,6 +434,22 @@ def runPipeline (t : YYTab) (tbl : PathTable) (ge73 : Bool) (src : Bytes) : Stri
     let offs := ",".intercalate (o.toks.map (fun t => s!"{t.id}:{t.ts}:{t.te}"))
     s!"{(o.code.getD 9)} {o.semErrors} {o.lexErrors} {root} {offs}"
 
+/-! `roundtrip <5|7> <0|1> <hex>`: parse then print inside the model: the printed bytes, `-` when no tree is
+  returned, `!` when the returned value is not a well-formed tree -/
+def schemaArr : Array (List Nat) := Gen.schemaSorts.toArray
+
+def runRoundtrip (t : YYTab) (tbl : PathTable) (ge73 : Bool) (src : Bytes) : String :=
+  let numString := ((Gen.tokenIds.find? (fun p => p.1 == nm! "T_NUM_STRING")).map (·.2)).getD 0
+  let d := src.toArray
+  let o := parseBytes scanProg t Gen.posCombs tbl numString ge73 d
+  match o.fault, o.root with
+  | some m, _ => "fault:" ++ m.replace " " "_"
+  | none, none => "-"
+  | none, some r =>
+    match r.toTree (fun k => schemaArr.getD k []) ((o.toks.map (tokOfOut d)).toArray) with
+    | none => "!"
+    | some tr => "x" ++ toHex (render litBytes (chunks C15.realCfg false tr))
+
 def handle (ws : List String) : String :=
   match ws with
   | ["pool", bs, n] =>
@@ -552,6 +569,8 @@ def handle (ws : List String) : String :=
     match pTree false (enc.splitOn ",") with
     | some (t, []) => "x" ++ toHex (render litBytes (chunks C15.realCfg false t))
     | _ => "bad-op"
+  | ["roundtrip", "7", f, h] => runRoundtrip Gen.tables7 pathTable7 (f == "1") (unhex h)
+  | ["roundtrip", "5", f, h] => runRoundtrip Gen.tables5 pathTable5 (f == "1") (unhex h)
   | ["pparse", "7", f, h] => runPipeline Gen.tables7 pathTable7 (f == "1") (unhex h)
   | ["pparse", "5", f, h] => runPipeline Gen.tables5 pathTable5 (f == "1") (unhex h)
   | ["scan", f, h] => runScan (f == "1") (unhex h)
